@@ -34,12 +34,28 @@ def run(chk):
             s = 0
             if N > n - len(L):
                 L = L[: max(0, n - N)]
+        A_qr = A
+        Lset = list(L)
+        L, lform = R.listing(rng, Lset, A)            # the region is a set: its listing must not matter
+        chk.count("region-listing:" + lform)
         for opt in ("max_n", "exact_n", "predetermined"):
-            if not (s <= len(L) and N - s <= n - len(L)):
+            A = A_qr
+            if not (s <= len(Lset) and N - s <= n - len(Lset)):
                 continue
             case = {"B": B.tolist(), "option": opt, "lin_idx": L, "n_sensors": N, "n_const_sensors": s, "all_sensors": A, "mode": ["generic", "inactive", "s0"][mode]}
             try:
-                piv, steps = R.run_gqr(B, opt, L, A, N, s, reuse=(chk.evaluations % 2 == 1))
+                if rng.random() < 0.35:
+                    piv, steps, A, intact = R.run_gqr_own(B, opt, L, N, s)
+                    case["all_sensors"] = A
+                    case["all_sensors_from"] = "the same GQR object's unconstrained fit"
+                    chk.count("all_sensors_from_the_same_object")
+                    if not intact:
+                        chk.violation("impl", "all-sensors-argument-overwritten", f"{opt}: the array passed as all_sensors was modified by fit", case)
+                    if A[:N] != A_qr[:N]:
+                        chk.count("own-ranking-differs-from-qr(tie)")
+                        continue
+                else:
+                    piv, steps = R.run_gqr(B, opt, L, A, N, s, reuse=(chk.evaluations % 2 == 1))
             except Exception as e:
                 chk.count("gqr-rejected:" + type(e).__name__)
                 continue
